@@ -1463,15 +1463,26 @@ class Interp:
                         new_variant.add(ins.res)
             new_stores = self.collect_loop_stores(li, ev_mark)
             if new_steps == steps and new_variant == variant_phis and self.same_stores(new_stores, stores_in_loop):
+                stores_in_loop = new_stores  # the terms of the final pass
                 break
             steps, variant_phis, stores_in_loop = new_steps, new_variant, new_stores
         else:
             raise IRUnsupported("loop at %s in %s did not stabilise" % (h, f.name))
+        li.variant_info = {}
         for ins in phis:
             if ins.res in steps:
                 li.ivs[iv_atom[ins.res]] = (init[ins.res], steps[ins.res])
             else:
-                li.variant.add(("iv", "%s.%s" % (self.fn.name, ins.res), "variant"))
+                va = ("iv", "%s.%s" % (self.fn.name, ins.res), "variant")
+                li.variant.add(va)
+                lat = []
+                for v, l in ins.attrs["incoming"]:
+                    if l in latches:
+                        t = self.val(v)
+                        if v.kind == "reg":
+                            t = self.apply_exit_subst(t, v.name, h)
+                        lat.append(t)
+                li.variant_info[va] = (init[ins.res], lat)
         li.stores = stores_in_loop
         # exits
         exits = []
@@ -1723,6 +1734,18 @@ class Interp:
         self.out_mem[exit_block] = new
 
     def has_loop_unknown(self, t, li, allow_iv=None):
+        """loop-variant unknowns / foreign induction variables at positions that no γ guards (an unknown in
+        one branch of a γ is kept: whoever reads the value decides the γ's condition or stays undecided)"""
+        if isinstance(t, Lin):
+            for a, _ in t.t:
+                if a[0] == "gamma":
+                    continue
+                if self._atom_has_loop_unknown(a, li, allow_iv):
+                    return True
+            return False
+        return False
+
+    def _atom_has_loop_unknown(self, a0, li, allow_iv):
         bad = []
 
         def fn(a):
@@ -1734,8 +1757,7 @@ class Interp:
                 if a in li.ivs or a in li.variant or self.iv_in_loop(a, li):
                     bad.append(a)
 
-        if isinstance(t, Lin):
-            walk_atoms(t, fn)
+        walk_atoms(atom(a0), fn)
         return bool(bad)
 
 
